@@ -27,7 +27,11 @@ On(v) == [on |-> TRUE, v |-> v]
 VInt == {-6, 0, 6, 8}      \* -1.5, 0, 1.5, 2      (quarters; a non-integral bound on an integer is legal, on either side of zero:
                            \*                        rounding toward zero and rounding into the range differ below zero)
 VNum == {-2, 0, 1, 6}      \* -0.5, 0, 0.25, 1.5
-V(t_) == IF t_ = "integer" THEN VInt ELSE VNum
+\* "numberfar": type number with the same constants moved to 2^24 (K quarters): bounds such as 16777216.25 need more
+\* significant digits than a float32 holds and must reach the emitted comparison exactly
+K == 67108864
+TyName(t_) == IF t_ = "numberfar" THEN "number" ELSE t_
+V(t_) == IF t_ = "integer" THEN VInt ELSE IF t_ = "numberfar" THEN {K + v : v \in VNum} ELSE VNum
 Mults(t_) == IF t_ = "integer" THEN {4, 8, 12} ELSE {1, 2, 4, 6}   \* 1,2,3 / 0.25,0.5,1,1.5 (1: the no-op for integers is a real constraint for numbers)
 
 Incl(t_) == {Off} \cup {On(JNum(v)) : v \in V(t_)}
@@ -38,7 +42,7 @@ MultS(t_) == {Off} \cup {On(m) : m \in Mults(t_)}
 Field(k, o) == IF o.on THEN k :> o.v ELSE <<>>
 
 NumSchema(t_, nullable, mn, mx, emn, emx, ml) ==
-  ("type" :> (IF nullable THEN <<t_, "null">> ELSE <<t_>>))
+  ("type" :> (IF nullable THEN <<TyName(t_), "null">> ELSE <<TyName(t_)>>))
   @@ Field("minimum", mn) @@ Field("maximum", mx)
   @@ Field("exclusiveMinimum", emn) @@ Field("exclusiveMaximum", emx)
   @@ Field("multipleOf", ml)
@@ -60,7 +64,7 @@ Unit(ty_, pos_, min_, max_, emin_, emax_, mult_) ==
       dflt     == IF okv = {} THEN JNull ELSE grid[CHOOSE i \in okv : \A j \in okv : i <= j]
   \* a NAMED number definition with multipleOf: `math.Mod(plain, ...)` on a defined type does not compile
   IN PosUnit("C05", p, leaf, vals, dflt)
-     @@ [nobuild |-> IF ty_ = "number" /\ mult_.on /\ PosViaDef(p) THEN <<"NamedFloatMultipleOfNoCompile">> ELSE <<>>]
+     @@ [nobuild |-> IF TyName(ty_) = "number" /\ mult_.on /\ PosViaDef(p) THEN <<"NamedFloatMultipleOfNoCompile">> ELSE <<>>]
 
 u == Unit(ty, pos, b[1], b[2], b[3], b[4], mult)
 Set == b # <<>>
@@ -82,7 +86,8 @@ DesignOK == Set => LET unit == u IN Agree(unit, {})
 \* and switches inside the reference semantics (JV.Valid) predict the same verdicts
 AsIsOK   == Set => LET unit == u IN Agree(unit, Devs)
 
-Init == /\ ty \in {"integer", "number"} /\ pos \in Positions /\ mult \in MultS(ty) /\ b = <<>>
+Init == /\ ty \in {"integer", "number", "numberfar"} /\ pos \in Positions /\ mult \in MultS(ty) /\ b = <<>>
+        /\ (ty = "numberfar" => pos \in {"req", "nullopt", "defreq"} /\ (~mult.on \/ mult.v = 6))
 Pick == /\ b = <<>>
         /\ b' \in Incl(ty) \X Incl(ty) \X Excl(ty) \X Excl(ty)
         /\ UNCHANGED <<ty, pos, mult>>
